@@ -164,43 +164,61 @@ theorem to_buffer_null_buffer (syn : Syntax) (ops : Option TypeOps) (n : Nat) (h
 /-! ## 3. asn_encode_to_new_buffer -/
 
 /-- **exact buffer or NULL** (whatever the allocator does): the only `assert` that can fire is the accounting one
-    (never `computed_size < buffer_size`, and the doubling loop always terminates); a returned buffer is a live block of
-    `buffer_size` octets, longer than the output, starting with exactly the concatenated output, NUL-terminated. -/
+    (never `computed_size < buffer_size`, and the doubling loop always terminates).  Otherwise the call returns
+    *either NULL or an exact-length, NUL-terminated buffer*, and it is **NULL exactly when the encoder failed
+    (`.encoded < 0`) or an allocation failed** (the initial MALLOC or one of the REALLOCs made during the run).
+    A returned buffer comes with `.encoded = Σ|chunk|`; it is a live block of `buffer_size` octets, longer than the
+    output, starting with exactly the concatenated output, followed by a NUL. -/
 theorem to_new_buffer_exact (syn : Syntax) (ops : Option TypeOps) (mallocOk : Bool) (allocOk : Nat → Bool) (junk : Nat) :
     (asnEncodeToNewBuffer syn ops mallocOk allocOk junk = .abort ∧ BadAccounting syn ops) ∨
     ∃ nb, asnEncodeToNewBuffer syn ops mallocOk allocOk junk = .done nb ∧
       nb.result = reported syn ops ∧ nb.key.computedSize = total (delivered syn ops) ∧
-      (nb.buffer = none ∨ ∃ b, nb.buffer = some b ∧ b.length = nb.key.bufferSize ∧
+      (nb.buffer = none ↔ ((reported syn ops).encoded < 0 ∨ AllocFailed mallocOk allocOk nb.key.allocs)) ∧
+      (∀ b, nb.buffer = some b →
+        nb.result.encoded = (total (delivered syn ops) : Int) ∧
+        b.length = nb.key.bufferSize ∧
         total (delivered syn ops) < b.length ∧
         b.take (total (delivered syn ops)) = (delivered syn ops).flatten ∧
         b[total (delivered syn ops)]? = some 0) := by
   rw [toNewBuffer_closed]
   obtain ⟨_, hc, hl⟩ := dynFinal_inv syn ops mallocOk allocOk junk
+  have hN := dynFinal_null_iff syn ops mallocOk allocOk junk
   rw [← total_eq_flatten_length] at hc
   by_cases hbad : BadAccounting syn ops
   · left; rw [if_pos hbad]; exact ⟨rfl, hbad⟩
   · right
     rw [if_neg hbad]
-    cases hb : (dynFinal syn ops mallocOk allocOk junk).buffer with
-    | none => exact ⟨_, rfl, rfl, hc, Or.inl rfl⟩
-    | some b =>
-      obtain ⟨hlen, hlt, htake⟩ := hl b hb
-      rw [hc] at hlt htake
-      refine ⟨_, rfl, rfl, hc, Or.inr ⟨_, rfl, ?_, ?_, ?_, ?_⟩⟩
-      · rw [writeAt_length _ _ _ (by simp; omega), hlen]
-      · rw [writeAt_length _ _ _ (by simp; omega)]; omega
-      · have hl : (b.take (total (delivered syn ops))).length = total (delivered syn ops) := by
-          rw [List.length_take]; omega
-        have h1 := List.take_left (l₁ := b.take (total (delivered syn ops)))
-          (l₂ := [0] ++ b.drop (total (delivered syn ops) + [0].length))
-        rw [hl] at h1
-        unfold writeAt
-        rw [List.append_assoc, h1, htake]
-      · have hl : (b.take (total (delivered syn ops))).length = total (delivered syn ops) := by
-          rw [List.length_take]; omega
-        unfold writeAt
-        rw [List.append_assoc, List.getElem?_append_right (Nat.le_of_eq hl), hl, Nat.sub_self]
-        rfl
+    by_cases hneg : (reported syn ops).encoded < 0
+    · rw [if_pos hneg]
+      exact ⟨_, rfl, rfl, hc, ⟨fun _ => Or.inl hneg, fun _ => rfl⟩, fun b hb => by cases hb⟩
+    · rw [if_neg hneg]
+      cases hb : (dynFinal syn ops mallocOk allocOk junk).buffer with
+      | none => exact ⟨_, rfl, rfl, hc, ⟨fun _ => Or.inr (hN.mp hb), fun _ => rfl⟩, fun b hb => by cases hb⟩
+      | some b =>
+        obtain ⟨hlen, hlt, htake⟩ := hl b hb
+        rw [hc] at hlt htake
+        refine ⟨_, rfl, rfl, hc, ⟨(fun h => by cases h), ?_⟩, ?_⟩
+        · rintro (h | h)
+          · exact absurd h hneg
+          · have := hN.mpr h; rw [hb] at this; cases this
+        · intro b' hb'
+          injection hb' with hb'
+          subst hb'
+          refine ⟨(accurate_iff_not_bad syn ops).mpr hbad (by omega), ?_, ?_, ?_, ?_⟩
+          · rw [writeAt_length _ _ _ (by simp; omega), hlen]
+          · rw [writeAt_length _ _ _ (by simp; omega)]; omega
+          · have hl : (b.take (total (delivered syn ops))).length = total (delivered syn ops) := by
+              rw [List.length_take]; omega
+            have h1 := List.take_left (l₁ := b.take (total (delivered syn ops)))
+              (l₂ := [0] ++ b.drop (total (delivered syn ops) + [0].length))
+            rw [hl] at h1
+            unfold writeAt
+            rw [List.append_assoc, h1, htake]
+          · have hl : (b.take (total (delivered syn ops))).length = total (delivered syn ops) := by
+              rw [List.length_take]; omega
+            unfold writeAt
+            rw [List.append_assoc, List.getElem?_append_right (Nat.le_of_eq hl), hl, Nat.sub_self]
+            rfl
 
 /-- the doubling loop `do new_size *= 2; while(new_size <= computed_size + size);` of `dynamic_encoder_cb` terminates for
     every live buffer (`buffer_size > 0`) with a size that holds the data **and** the terminating NUL -/
@@ -208,57 +226,81 @@ theorem doubling_loop_terminates (bufferSize target : Nat) (h : 0 < bufferSize) 
     ∃ newSize, growLoop bufferSize target = some newSize ∧ target < newSize ∧ bufferSize < newSize :=
   growLoop_spec bufferSize target h
 
-/-- when no allocation fails the buffer is never NULL — **whatever the encoder returned** -/
+/-- when no allocation fails the buffer is non-NULL **exactly when the encoding succeeded** (`.encoded ≥ 0`) -/
 theorem to_new_buffer_nonnull (syn : Syntax) (ops : Option TypeOps) (allocOk : Nat → Bool) (junk : Nat)
     (hall : ∀ i, allocOk i = true) (nb : NewBuffer)
-    (h : asnEncodeToNewBuffer syn ops true allocOk junk = .done nb) : nb.buffer.isSome := by
-  rw [toNewBuffer_closed] at h
-  have hsome : (dynFinal syn ops true allocOk junk).buffer.isSome :=
-    dynamic_fold_buffer_some allocOk junk
-      (⟨some (List.replicate 16 junk), 16, 0, 0, false⟩ : DynKey) (delivered syn ops) hall rfl (by show 0 < 16; omega)
-  split at h
-  · cases h
-  · cases hb : (dynFinal syn ops true allocOk junk).buffer with
-    | none => rw [hb] at hsome; cases hsome
-    | some b => rw [hb] at h; injection h with h; subst h; rfl
+    (h : asnEncodeToNewBuffer syn ops true allocOk junk = .done nb) : nb.buffer.isSome ↔ 0 ≤ nb.result.encoded := by
+  rcases to_new_buffer_exact syn ops true allocOk junk with ⟨ha, _⟩ | ⟨nb', hres, hr, _, hiff, _⟩
+  · rw [ha] at h; cases h
+  · rw [h] at hres; injection hres with hres; subst hres
+    rw [hr]
+    have hnf := not_allocFailed allocOk hall nb.key.allocs
+    constructor
+    · intro hsome
+      apply Decidable.byContradiction
+      intro hlt
+      have := hiff.mpr (Or.inl (by omega))
+      rw [this] at hsome; cases hsome
+    · intro h0
+      cases hb : nb.buffer with
+      | some b => rfl
+      | none =>
+        rcases hiff.mp hb with hlt | hf
+        · omega
+        · exact absurd hf hnf
 
-/-- **success ⇒ exact-length, NUL-terminated buffer** (guarded form of the documented contract): allocations succeed and
-    the encoder's accounting is exact ⇒ the call returns a buffer whose first `total` octets are the concatenated output,
-    followed by a NUL, and the reported size (if ≥ 0) is `total` -/
+/-- **the documented contract** ("On success, returns a newly allocated (.buffer) containing the whole message, the
+    message size is returned in (.result.encoded); on failure (.buffer) is NULL"): allocations succeed and the encoder's
+    accounting is exact ⇒ the call returns; if the encoding succeeded the buffer's first `.encoded = total` octets are
+    the concatenated output, followed by a NUL; if it failed the buffer is NULL -/
 theorem to_new_buffer_success (syn : Syntax) (ops : Option TypeOps) (allocOk : Nat → Bool) (junk : Nat)
     (hall : ∀ i, allocOk i = true) (hA : Accurate syn ops) :
     ∃ nb, asnEncodeToNewBuffer syn ops true allocOk junk = .done nb ∧ nb.result = reported syn ops ∧
-      ∃ b, nb.buffer = some b ∧ b.take (total (delivered syn ops)) = (delivered syn ops).flatten ∧
-           b[total (delivered syn ops)]? = some 0 ∧
-           (0 ≤ nb.result.encoded → nb.result.encoded = (total (delivered syn ops) : Int)) := by
-  rcases to_new_buffer_exact syn ops true allocOk junk with ⟨_, hbad⟩ | ⟨nb, hres, hr, _, hb⟩
+      (0 ≤ nb.result.encoded →
+        ∃ b, nb.buffer = some b ∧ nb.result.encoded = (total (delivered syn ops) : Int) ∧
+             b.take (total (delivered syn ops)) = (delivered syn ops).flatten ∧
+             b[total (delivered syn ops)]? = some 0) ∧
+      (nb.result.encoded < 0 → nb.buffer = none) := by
+  rcases to_new_buffer_exact syn ops true allocOk junk with ⟨_, hbad⟩ | ⟨nb, hres, hr, _, hiff, hb⟩
   · exact absurd hbad ((accurate_iff_not_bad syn ops).mp hA)
-  · have hsome := to_new_buffer_nonnull syn ops allocOk junk hall nb hres
-    rcases hb with hnone | ⟨b, hb, _, _, htake, hnul⟩
-    · rw [hnone] at hsome; cases hsome
-    · exact ⟨nb, hres, hr, b, hb, htake, hnul, by rw [hr]; exact hA⟩
+  · refine ⟨nb, hres, hr, ?_, ?_⟩
+    · intro h0
+      have hsome := (to_new_buffer_nonnull syn ops allocOk junk hall nb hres).mpr h0
+      cases hbuf : nb.buffer with
+      | none => rw [hbuf] at hsome; cases hsome
+      | some b =>
+        obtain ⟨he, _, _, htake, hnul⟩ := hb b hbuf
+        exact ⟨b, rfl, he, htake, hnul⟩
+    · intro hlt
+      exact hiff.mpr (Or.inl (by rw [← hr]; exact hlt))
 
-/-- **F39 (counter-example to "buffer is NULL on failure")**: an encoder failure (`.encoded = -1`, errno EBADF) still
-    returns the 16-octet block allocated up front.  `to_new_buffer_nonnull` shows this for every failing encoder. -/
-theorem to_new_buffer_failure_keeps_buffer_cex :
-    ∃ nb, asnEncodeToNewBuffer .der (some (TypeOps.all (.ret (.fail .hasEnc)))) true (fun _ => true) 0 = .done nb ∧
-      nb.result = ⟨-1, some .EBADF⟩ ∧ nb.buffer.isSome = true := by
-  refine ⟨_, rfl, ?_, ?_⟩ <;> decide
+/-- **F39 repaired — no buffer on failure**, for every encoder, syntax and allocator behaviour: whenever the call
+    returns `.encoded < 0` the buffer is NULL (nothing for the caller to leak) -/
+theorem to_new_buffer_failure_null (syn : Syntax) (ops : Option TypeOps) (mallocOk : Bool) (allocOk : Nat → Bool) (junk : Nat)
+    (nb : NewBuffer) (h : asnEncodeToNewBuffer syn ops mallocOk allocOk junk = .done nb) (hf : nb.result.encoded < 0) :
+    nb.buffer = none := by
+  rcases to_new_buffer_exact syn ops mallocOk allocOk junk with ⟨ha, _⟩ | ⟨nb', hres, hr, _, hiff, _⟩
+  · rw [ha] at h; cases h
+  · rw [h] at hres; injection hres with hres; subst hres
+    exact hiff.mpr (Or.inl (by rw [← hr]; exact hf))
+
+/-- the former F39 witness shapes (an encoder that refuses at once; an encoder that refuses after having emitted a
+    prefix): `.encoded = -1`, errno EBADF and **no buffer** (formerly: the 16-octet block allocated up front) -/
+theorem to_new_buffer_failure_witness :
+    (∃ nb, asnEncodeToNewBuffer .der (some (TypeOps.all (.ret (.fail .hasEnc)))) true (fun _ => true) 0 = .done nb ∧
+      nb.result = ⟨-1, some .EBADF⟩ ∧ nb.buffer = none) ∧
+    (∃ nb, asnEncodeToNewBuffer .canonicalUper
+        (some (TypeOps.all (Enc.ofRun [[0x80, 0x01]] (.fail .hasEnc)))) true (fun _ => true) 0 = .done nb ∧
+      nb.result = ⟨-1, some .EBADF⟩ ∧ nb.buffer = none ∧ nb.key.computedSize = 2) := by
+  refine ⟨⟨_, rfl, ?_, ?_⟩, ⟨_, rfl, ?_, ?_, ?_⟩⟩ <;> decide
 
 /-- a failed initial allocation gives NULL together with the full size (the documented ENOMEM case) -/
 theorem to_new_buffer_malloc_failure (syn : Syntax) (ops : Option TypeOps) (allocOk : Nat → Bool) (junk : Nat)
     (hA : Accurate syn ops) :
     ∃ nb, asnEncodeToNewBuffer syn ops false allocOk junk = .done nb ∧ nb.buffer = none ∧ nb.result = reported syn ops := by
-  rw [toNewBuffer_closed, if_neg ((accurate_iff_not_bad syn ops).mp hA)]
-  have hnone : ∀ (cs : List Bytes) (key : DynKey), key.buffer = none →
-      (foldCb (dynamicCb allocOk junk) key cs).buffer = none := by
-    intro cs
-    induction cs with
-    | nil => intro key h1; exact h1
-    | cons c cs ih => intro key h1; exact ih _ (by simp [dynamicCb, h1])
-  have hb : (dynFinal syn ops false allocOk junk).buffer = none := hnone _ _ rfl
-  rw [hb]
-  exact ⟨_, rfl, rfl, rfl⟩
+  rcases to_new_buffer_exact syn ops false allocOk junk with ⟨_, hbad⟩ | ⟨nb, hres, hr, _, hiff, _⟩
+  · exact absurd hbad ((accurate_iff_not_bad syn ops).mp hA)
+  · exact ⟨nb, hres, hiff.mpr (Or.inr (Or.inl rfl)), hr⟩
 
 /-! ## 4. a failing output callback ⇒ -1 with errno EIO -/
 
@@ -432,7 +474,7 @@ theorem reported_eq_delivered_buffers (syn : Syntax) (ops : Option TypeOps) :
     obtain ⟨_, _, _, _, hc, _⟩ := to_buffer_no_overrun syn ops buf tail key r h
     exact ⟨by rw [h1, hc], hc⟩
   · intro mallocOk allocOk junk nb h h0
-    rcases to_new_buffer_exact syn ops mallocOk allocOk junk with ⟨ha, _⟩ | ⟨nb', hres, hr, hc, _⟩
+    rcases to_new_buffer_exact syn ops mallocOk allocOk junk with ⟨ha, _⟩ | ⟨nb', hres, hr, hc, _, _⟩
     · rw [ha] at h; cases h
     · rw [h] at hres; injection hres with hres; subst hres
       refine ⟨?_, hc⟩
@@ -477,14 +519,14 @@ theorem accurate_of_encoder (syn : Syntax) (ops : TypeOps) (e : Enc) (hsel : sel
 
 /-- **clean failure**: when the selected encoder returns -1 (violated constraint, missing mandatory member, unselected
     CHOICE …) all three wrappers return -1 with errno set (EBADF, or ENOENT when the blamed type has no encoder);
-    no `assert` fires; the buffer variant does so for every buffer size. -/
+    no `assert` fires; the buffer variant does so for every buffer size; the new-buffer variant returns no buffer. -/
 theorem unencodable_clean (syn : Syntax) (hs : Standard syn) (ops : TypeOps) (e : Enc) (b : Blame)
     (hsel : selected syn ops = some e) (hfail : e.result = .fail b) :
     reported syn (some ops) = ⟨-1, some (errnoOfBlame b)⟩ ∧
     (∃ st, asnEncode syn (some ops) (some (failAtCb none)) {} = .done (st, ⟨-1, some (errnoOfBlame b)⟩)) ∧
     (∀ buf tail, (asnEncodeToBuffer syn (some ops) (some (buf ++ tail)) buf.length).map Prod.snd = .done ⟨-1, some (errnoOfBlame b)⟩) ∧
     (∀ mallocOk allocOk junk, ∃ nb, asnEncodeToNewBuffer syn (some ops) mallocOk allocOk junk = .done nb ∧
-        nb.result = ⟨-1, some (errnoOfBlame b)⟩) := by
+        nb.result = ⟨-1, some (errnoOfBlame b)⟩ ∧ nb.buffer = none) := by
   have hrep : reported syn (some ops) = ⟨-1, some (errnoOfBlame b)⟩ := by
     cases syn <;> simp only [Standard] at hs
     case basicUper => have := (delivered_reported_uper .basicUper ops e (by simp) (by simpa [selected] using hsel)).2; rw [this, hfail]
@@ -499,9 +541,9 @@ theorem unencodable_clean (syn : Syntax) (hs : Standard syn) (ops : TypeOps) (e 
     unfold toBufferRet
     rw [if_neg hnb, hrep]
   · intro mallocOk allocOk junk
-    rcases to_new_buffer_exact syn (some ops) mallocOk allocOk junk with ⟨_, hbad⟩ | ⟨nb, hres, hr, _, _⟩
+    rcases to_new_buffer_exact syn (some ops) mallocOk allocOk junk with ⟨_, hbad⟩ | ⟨nb, hres, hr, _, hiff, _⟩
     · exact absurd hbad hnb
-    · exact ⟨nb, hres, by rw [hr, hrep]⟩
+    · exact ⟨nb, hres, by rw [hr, hrep], hiff.mpr (Or.inl (by rw [hrep]; show (-1 : Int) < 0; decide))⟩
 
 /-! ## 7. encoder shapes that meet the obligation (the `ASN__CALLBACK` / "return er on -1" idioms) -/
 
